@@ -132,3 +132,6 @@ func UFInt(name string, args []int) int { return 0 }
 func And(a, b bool) bool     { return a && b }
 func Or(a, b bool) bool      { return a || b }
 func Implies(a, b bool) bool { return !a || b }
+
+// DeepCopy is only meaningful under the symbolic executor (snapshot models); natively it returns x.
+func DeepCopy(x any) any { return x }
